@@ -2480,6 +2480,11 @@ package ast
 // the list-valued links (loops 3 and 4, inside the linking loop): one slot per stored id, slot n = the node rebuilt for the n-th id
 //@   invariant@3[C12] args: len(as(importTable[astID], *ArgumentList).Arguments) == len(as(meta, *ArgumentListMeta).ArgumentASTIDs) && (forall n int :: 0 <= n && n < $i ==> as(importTable[astID], *ArgumentList).Arguments[n] == importTable[as(meta, *ArgumentListMeta).ArgumentASTIDs[n]])
 //@   invariant@4[C12] thens: len(as(importTable[astID], *ThenExpressionList).ThenExpressions) == len(as(meta, *ThenExpressionListMeta).ThenExpressionIDs) && (forall n int :: 0 <= n && n < $i && has(importTable, as(meta, *ThenExpressionListMeta).ThenExpressionIDs[n]) ==> as(importTable[astID], *ThenExpressionList).ThenExpressions[n] == importTable[as(meta, *ThenExpressionListMeta).ThenExpressionIDs[n]])
+// the three snapshot maps of the working memory (loops 5, 6, 7; thirteenth round): every stored key visited so far maps to the node
+// rebuilt for the stored id (a variable key whose id is unknown is skipped with a warning - the code's documented tolerance)
+//@   invariant@5[C12] snapV: workingMem != nil && workingMem.variableSnapshotMap != nil && (forall j int {$keys[j]} :: 0 <= j && j < $i && has(importTable, cat.MemoryVariableSnapshotMap[$keys[j]]) ==> has(workingMem.variableSnapshotMap, $keys[j]) && workingMem.variableSnapshotMap[$keys[j]] == importTable[cat.MemoryVariableSnapshotMap[$keys[j]]])
+//@   invariant@6[C12] snapE: workingMem != nil && workingMem.expressionSnapshotMap != nil && (forall j int {$keys[j]} :: 0 <= j && j < $i ==> has(workingMem.expressionSnapshotMap, $keys[j]) && workingMem.expressionSnapshotMap[$keys[j]] == importTable[cat.MemoryExpressionSnapshotMap[$keys[j]]])
+//@   invariant@7[C12] snapA: workingMem != nil && workingMem.expressionAtomSnapshotMap != nil && (forall j int {$keys[j]} :: 0 <= j && j < $i ==> has(workingMem.expressionAtomSnapshotMap, $keys[j]) && workingMem.expressionAtomSnapshotMap[$keys[j]] == importTable[cat.MemoryExpressionAtomSnapshotMap[$keys[j]]])
 //@   invariant@9[C12] idxE: len(workingMem.expressionVariableMap[as(importTable[key], *Variable)]) == len(value) && (forall n int :: 0 <= n && n < $i ==> workingMem.expressionVariableMap[as(importTable[key], *Variable)][n] == importTable[value[n]])
 //@   invariant@11[C12] idxA: len(workingMem.expressionAtomVariableMap[as(importTable[key], *Variable)]) == len(value) && (forall n int :: 0 <= n && n < $i ==> workingMem.expressionAtomVariableMap[as(importTable[key], *Variable)][n] == importTable[value[n]])
 //@   ensures err == nil ==> kb != nil
